@@ -78,6 +78,7 @@ def tokeniser(ctx, rule):
         else:
             ctx.ok(rule, "site %s" % key, detail=sorted(s.how), where=F.loc(s.span))
     nsome = nnone = 0
+    counted = [0]
     for o in outs:
         if o.kind != "return":
             continue
@@ -89,11 +90,11 @@ def tokeniser(ctx, rule):
         # prefix facts on this path
         prefix = None
         for t, val in o.cons.known.items():
-            if isinstance(t, tuple) and t[0] == "call" and t[1].endswith("::starts_with") and val == 1:
+            if isinstance(t, tuple) and t[0] == "call" and t[1].endswith("::starts_with") and val == 1 and t[2][0] in (("&", REM0), REM0):
                 lit = t[2][1]
                 if isinstance(lit, tuple) and lit[0] == "&":
                     lit = lit[1]
-                if isinstance(lit, tuple) and lit[0] in ("bytes", "str"):
+                if isinstance(lit, tuple) and lit[0] in ("bytes", "str") and (prefix is None or len(lit[1]) > len(prefix)):
                     prefix = lit[1]
         if prefix is None:
             # a slice pattern (`[b'W', b'/', b'"', ..]`) instead of starts_with: the bytes the path has pinned at 0, 1, 2, ...
@@ -141,8 +142,11 @@ def tokeniser(ctx, rule):
                 comma = o.cons.known.get(first)
                 r2 = rem2
                 if comma == 44:
-                    # consumed the comma, then skipped SP/HTAB: final remainder is the loop-carried slice or rest[1..]
-                    okrem = _derived_from_rest_after_comma(o, r2, rest)
+                    # consumed the comma, then skipped SP/HTAB: final remainder is the loop-carried slice or rest[1..], or
+                    # rest[1..][n..] with n = the length of the longest SP/HTAB prefix (`take_while(..).count()`)
+                    okrem = _derived_from_rest_after_comma(o, r2, rest) or _skipped_prefix(ctx, r2, rest)
+                    if _skipped_prefix(ctx, r2, rest):
+                        counted[0] += 1
                     if not okrem:
                         bad.append("after `,` the remainder is %s (expected the rest after the comma with leading SP/HTAB skipped)" % short(r2, 80))
                     else:
@@ -185,7 +189,35 @@ def tokeniser(ctx, rule):
             ctx.ok(rule, "skip-loop row skips byte %s" % skipped)
     ctx.floor(rule, nsome, 4, what="element rows")
     ctx.floor(rule + ".none", nnone, 3, what="None rows (end, no prefix, no closing quote)")
-    ctx.floor(rule + ".skip", nskip, 2, what="whitespace-skip rows")
+    ctx.floor(rule + ".skip", nskip + 2 * min(counted[0], 1), 2, what="whitespace-skip rows (loop turns, or a counted SP/HTAB prefix)")
+
+
+def _skipped_prefix(ctx, r2, rest):
+    """r2 is rest[1 + n ..] with n = prefix_len(rest[1..], p) and p true exactly on SP and HTAB"""
+    from .common import pred_true_set
+    base, path = canon_slice(r2)
+    if path != () or not (isinstance(base, tuple) and base[0] == "slice" and base[3] is None and isinstance(rest, tuple) and rest[0] == "slice"):
+        return False
+    after = ("slice", rest[1], mk_binop("Add", rest[2], const(1)), rest[3])
+    if base[1] != rest[1]:
+        return False
+    # base[2] == after.start + prefix_len(after, pred)
+    n = None
+    for cand in _addends(base[2]):
+        if isinstance(cand, tuple) and cand and cand[0] == "prefix_len":
+            n = cand
+    if n is None or n[1] != after:
+        return False
+    from ..zone import same_sum
+    if not same_sum(base[2], mk_binop("Add", after[2], n)):
+        return False
+    return pred_true_set(ctx, n[2]) == {32, 9}
+
+
+def _addends(t):
+    if isinstance(t, tuple) and t and t[0] == "binop" and t[1] == "Add":
+        return _addends(t[2]) + _addends(t[3])
+    return [t]
 
 
 def tokeniser_cursor(ctx, rule, adt, nx, inputf, posf, flagf):
